@@ -151,6 +151,14 @@ CLAIMS = {
          "an equivalence that separates objects differing in nodes, edges, externals, rules or start. Sampled histories; shrunk as one value.",
          "Trusted: the snapshot/invariant code in vf/props/c16.py, Hypothesis. Graphs handed to a rule are frozen (stated precondition).",
          "DESIGN.md section 5, C16"),
+ 'C18': ("model-based stateful testing: Hypothesis-generated query sequences on shared objects with deep before/after snapshots (purity invariant) and memoised first results (reproducibility); in-place operations on clones vs. source snapshots",
+         "A grammar is built once (dense/patterned weights, with or without requires_grad, implicit/explicit ids) and 4-10 queries -- sum_product/sum_products in all "
+         "semirings and methods, viterbi, the three factorize entry points x 3 methods, conjoin_hrgs (incl. a pair of grammars over shared skeletons), fgg_to_json/"
+         "hrg_to_json -- are run in a drawn order with repetitions; every argument's deep snapshot (object identities, ids, tables, storage bytes, strides, "
+         "offsets, patterns, defaults, requires_grad, grad is None) must be unchanged by every call and every repeated query must return the same result "
+         "(tensors bit-equal). Clones of patterned tensors / MultiTensors are mutated in place and the source's snapshot must not change. Sampled histories.",
+         "Trusted: the snapshot/canonicalisation code in vf/props/c18.py, Hypothesis. j_precompute=True is left to C11 (open finding).",
+         "DESIGN.md section 5, C18"),
 }
 
 NOT_YET = {}   # id -> reason (filled while the framework is being built)
